@@ -270,7 +270,7 @@ def qf_e1(ctx, shapes, union_shapes=(), alg_shapes=()):
         ctx.e1.append(vlib.model_check("MC_QuotientAlg", {"Q": q, "R": r}, ["Comm", "Idem", "Twice", "Assoc"], ctx.sub("e1")))
 
 
-def qf_e2(ctx, shapes, pairs, reps=2, max_alt=200, gen_workers=1):
+def qf_e2(ctx, shapes, pairs, reps=2, max_alt=600, gen_workers=1):
     for (q, r) in shapes:
         w = ctx.sub("qf_%d_%d" % (q, r))
         gen, st = vlib.generate("MC_Quotient", {"Q": q, "R": r, "EMIT": "TRUE"}, w, "gen.out", workers=gen_workers)
@@ -329,7 +329,7 @@ def ck_e1(ctx, shapes):
         ctx.e1.append(vlib.model_check("MC_Cuckoo", c, ["ExactBag", "LenOK", "NoFalseNeg"], ctx.sub("e1")))
 
 
-def ck_e2(ctx, shapes, pairs, reps=2, max_alt=150):
+def ck_e2(ctx, shapes, pairs, reps=2, max_alt=400):
     asb = ck_consts()
     for (b, nb, fpmax, p, allfull) in shapes:
         w = ctx.sub("ck_%d_%d_%d" % (b, nb, fpmax))
@@ -710,7 +710,7 @@ def run_lossy(ctx):
     gshapes = [(1, 3, 6), (2, 3, 8), (3, 3, 8)] if ctx.quick else [(1, 3, 8), (2, 4, 10), (3, 4, 10), (4, 4, 11)]
     for (w, ne, nmax) in gshapes:
         c = {"Width": w, "NE": ne, "NMax": nmax, "D": 12, "EMIT": "TRUE"}
-        std_e2(ctx, "MC_Lossy", c, "lc", "P_Lossy", "lc_%d_%d" % (w, ne), reps=1, max_alt=40, sample='"prunes"',
+        std_e2(ctx, "MC_Lossy", c, "lc", "P_Lossy", "lc_%d_%d" % (w, ne), reps=1, max_alt=400, sample='"prunes"',
                label={"structure": "LossyCounter", "width": w, "symbols": ne, "max_stream": nmax})
     std_e3(ctx, "lc", "P_Lossy", "lc_e3", drive_args=["--scenarios", "30" if ctx.quick else "400", "--max-n", "3000" if ctx.quick else "40000"],
            sample='"tracked"')
@@ -753,7 +753,7 @@ def run_heap(ctx):
         c["EMIT"] = "TRUE"
         if ctx.quick:
             c["NMax"] = nmax - 1
-        std_e2(ctx, "MC_CMSHeap", c, "heap", "P_CMSHeap", "heap_%d_%d_%d" % (k, w, d), reps=1, max_alt=40, sample='"displaces-minimum"',
+        std_e2(ctx, "MC_CMSHeap", c, "heap", "P_CMSHeap", "heap_%d_%d_%d" % (k, w, d), reps=1, max_alt=300, sample='"displaces-minimum"',
                label={"structure": "CMSHeap", "k": k, "w": w, "d": d, "elements": ne, "max_stream": c["NMax"]})
     std_e3(ctx, "heap", "P_CMSHeap", "heap_e3", drive_args=["--scenarios", "40" if ctx.quick else "600", "--max-n", "300" if ctx.quick else "3000"],
            sample='"ok"')
@@ -830,7 +830,7 @@ def rs_e2(ctx, ks, dist):
     for k in ks:
         c = {"K": k, "NMax": 4 * k + 4, "GMax": 3, "EMIT": "TRUE"}
         c.update(asb)
-        std_e2(ctx, "MC_Reservoir", c, "rs", "P_Reservoir", "rs_%d" % k, reps=1, max_alt=30, sample='"switch',
+        std_e2(ctx, "MC_Reservoir", c, "rs", "P_Reservoir", "rs_%d" % k, reps=1, max_alt=1200, sample='"switch',
                label={"structure": "ReservoirSampling", "k": k, "max_stream": 4 * k + 4})
         if dist:
             w = ctx.sub("rs_%d" % k)
@@ -903,6 +903,10 @@ def td_e3(ctx, scenarios):
            tspec="Trace_TDigest", tconsts={"ClearResetsN": asb["ClearResetsN"]})
 
 
+def td_real(ctx, scenarios):
+    std_e3(ctx, "tdr", "P_TDigestReal", "tdr_e3", drive_args=["--scenarios", str(scenarios)], sample='"ins"')
+
+
 def td_rank(ctx, digests, max_n):
     w = ctx.sub("td_rank")
     p = os.path.join(w, "rank.ndjson")
@@ -942,11 +946,13 @@ def run_td(ctx, rank=False):
         td_e1(ctx, [("any", 2, 1, 1, [0, 1, 2, 3], [0, 1, 2], 5)], [])
         td_e2(ctx, [0, 3], [0, 16, 64], 4, [("K0", 4, 1, 0), ("K2", 5, 2, 0), ("K3", 10, 1, 3)])
         td_e3(ctx, 40)
+        td_real(ctx, 40)
     elif ctx.quick:
         td_e1(ctx, [("any", 2, 1, 1, [0, 1, 2, 3], [0, 1, 2], 5), ("K0", 2, 1, 1, [0, 1, 2, 3], [0, 1, 2], 5), ("K0", 3, 2, 0, [0, 1, 3], [1, 2], 5)],
               [(3, 2, 3, 8)])
         td_e2(ctx, [0, 3], [0, 16, 64], 4, TD_CONFIGS_Q)
         td_e3(ctx, 40)
+        td_real(ctx, 60)
         if rank:
             td_rank(ctx, 24, 20000)
     else:
@@ -955,6 +961,7 @@ def run_td(ctx, rank=False):
               [(4, 3, 4, 8)])
         td_e2(ctx, [0, 1, 3], [0, 4, 16, 32], 4, TD_CONFIGS_T)
         td_e3(ctx, 600)
+        td_real(ctx, 1500)
         if rank:
             td_rank(ctx, 400, 50000)
 
@@ -1175,3 +1182,8 @@ def run_C05(ctx):
 
 def run_C18(ctx):
     run_rs(ctx, False)
+
+
+def _dbg_td_real(ctx):
+    td_real(ctx, 60)
+    td_e3(ctx, 40)
